@@ -11,7 +11,7 @@ LEVEL = 'fault_enumeration'
 RULE = ('A bundle (generated payload, CRC types incl. none so that CRCs cannot mask, two extension blocks and a hop-count '
         'block) gets a Block Integrity Block over {payload, an extension block, both} either (A) from a real source '
         'agent with a COSE_Mac0 policy (HMAC-256/384/512) through its real transmit chain, (S) from a real source agent with '
-        'a COSE_Sign1 policy (ES256/ES384, certificate in an x5chain, receiver holding the issuing CA / another CA / none), or (B) from the independent '
+        'a COSE_Sign1 policy (ES256/ES384, certificate in an x5chain, receiver holding the issuing CA / another CA / none; signer certificate naming the source, no node at all, or another node), or (B) from the independent '
         'reference source with AAD scopes the repository source never emits ({0:1,-1:1,-2:1}, extra blocks with '
         'METADATA and/or BTSD flags, additional-protected parameter present or absent, CRC on the security block).  The '
         'encoded bundle is then altered field by field through the independent codec, CRCs recomputed: every primary '
@@ -75,7 +75,10 @@ def cases(draw):
             'scope': draw(st.integers(0, len(SCOPES) - 1)), 'addl': draw(st.booleans()),
             'plen': draw(st.sampled_from([0, 1, 5, 24, 300])), 'seed': draw(st.integers(0, 99)),
             'pcrc': draw(st.sampled_from([0, 0, 1, 2])), 'bcrc': draw(st.sampled_from([0, 0, 1, 2])),
-            'sec_crc': draw(st.sampled_from([0, 1])), 'alterations': alts}
+            'sec_crc': draw(st.sampled_from([0, 1])), 'alterations': alts,
+            # direction S: whose certificate the signer holds - its own, one without any bundle EID, one naming another
+            # node (all issued by the CA the receiver trusts): the last two are the wrong key for this security source
+            'identity': draw(st.sampled_from(['own', 'own', 'own', 'none', 'other']))}
 
 
 def strategy(tier):
@@ -92,6 +95,9 @@ def enumerate_cases(tier):
             continue
         yield {'direction': direction, 'alg': algs[0], 'targets': targets, 'scope': scope, 'addl': scope % 2 == 1,
                'plen': 5, 'seed': 1, 'pcrc': 0, 'bcrc': 0, 'sec_crc': 0, 'alterations': catalogue}
+    for alg, identity in itertools.product((-7, -35), ('none', 'other')):
+        yield {'direction': 'S', 'alg': alg, 'targets': ['payload'], 'scope': 0, 'addl': False, 'plen': 5, 'seed': 1, 'pcrc': 0,
+               'bcrc': 0, 'sec_crc': 0, 'alterations': [], 'identity': identity}
     for alg, targets in itertools.product((-7,) if tier == 'quick' else (-7, -35), (['payload'], ['ext'], ['payload', 'ext'])):
         yield {'direction': 'S', 'alg': alg, 'targets': targets, 'scope': 0, 'addl': False, 'plen': 5, 'seed': 1, 'pcrc': 0,
                'bcrc': 0, 'sec_crc': 0, 'alterations': catalogue + [['x5chain-flip', 0, pos] for pos in range(0, 440, 37)]}
@@ -137,7 +143,7 @@ def sign(case, out):
         if case['direction'] == 'S':
             # COSE_Sign1 with the end-entity certificate in an x5chain (additional unprotected parameter)
             kid = 'k-sign'
-            bu.give_signing_identity(src, 'dtn://srcnode/', CURVES[case['alg']])
+            bu.give_signing_identity(src, 'dtn://srcnode/', CURVES[case['alg']], case.get('identity') or 'own')
         else:
             bu.give_key(src, kid, case['alg'], 'mac')
         types = sorted({1 if t == 'payload' else 192 for t in case['targets']})
@@ -204,8 +210,26 @@ def execute(case):
         good_keys['trust-anchor-ok'] = True     # the receiver trusts the CA that issued the source certificate
     out.label('direction:' + case['direction'], 'alg:%d' % alg, 'targets:' + '+'.join(case['targets']),
               'scope:%d' % (case['scope'] if case['direction'] == 'B' else -1))
-    # differential on the unmodified bundle: reference verifies the tag, receiver delivers
     bib = rc.security_blocks(signed, 11)[0]
+    if sign1 and (case.get('identity') or 'own') != 'own':
+        # signed with a key that is certified, but not for this security source
+        out.label('signer-identity:' + case['identity'])
+        try:
+            ok = rc.verify_bib(signed, bib, good_keys)
+        except rc.CoseError:
+            ok = False
+        if ok:
+            out.fail('harness-impostor-verifies', 'the reference accepts a certificate that does not name the security source')
+            return out
+        payload, fins, err, escapes = receive(signed, alg)
+        out.count('alterations_evaluated')
+        out.count('alteration:signer-identity')
+        if payload is not None:
+            out.fail('covered-change-accepted:signer-identity', 'a BIB signed with a CA-issued certificate that %s verified at the '
+                     'receiver and the bundle was delivered' % ('carries no bundle EID' if case['identity'] == 'none' else 'names another node'))
+        out.nontrivial = True
+        return out
+    # differential on the unmodified bundle: reference verifies the tag, receiver delivers
     try:
         ok = rc.verify_bib(signed, bib, good_keys)
     except rc.CoseError as exc:
